@@ -126,7 +126,7 @@ fn exec(sut: &mut Sut, op: &Op, reg: &Arc<Registry>, clock: &VerifClock) -> Step
             StepResult::Unit
         }
         Op::InvalidateIf { p } => {
-            sut.invalidate_if(*p);
+            sut.invalidate_if(*p, reg);
             StepResult::Unit
         }
         Op::Sync => {
@@ -196,6 +196,10 @@ pub fn run_seq(trace: &Trace, skip: &BTreeSet<usize>, opts: &SeqOpts) -> SeqOutc
     }
     if let Some(n) = trace.callback_faults.weigh_panic_at {
         reg.arm_weigh_panic(n as i64);
+        rep.fault_injecting = true;
+    }
+    if let Some(n) = trace.callback_faults.pred_panic_at {
+        reg.arm_pred_panic(n as i64);
         rep.fault_injecting = true;
     }
     crate::types::arm_key_panics(
@@ -345,6 +349,7 @@ pub fn run_seq(trace: &Trace, skip: &BTreeSet<usize>, opts: &SeqOpts) -> SeqOutc
         // --- execute ----------------------------------------------------------------
         crate::types::set_in_op(true);
         let value_cb_before = reg.injected();
+        let pred_before = reg.pred_injected();
         let res = catch_unwind(AssertUnwindSafe(|| exec(&mut sut, op, &reg, &clock)));
         crate::types::set_in_op(false);
         let st = hooks.end_op();
@@ -365,6 +370,12 @@ pub fn run_seq(trace: &Trace, skip: &BTreeSet<usize>, opts: &SeqOpts) -> SeqOutc
                         Op::Insert { k, vid, .. } if !unsync && !relaxed && reg.injected() > value_cb_before => {
                             model.taint(*k, *vid);
                             rep.flag("panicked_insert_judged", 1);
+                        }
+                        // unsync: `invalidate_entries_if` evaluates the predicate while it
+                        // only collects keys; a predicate that panics leaves the cache as it
+                        // was. The call is judged as a no-op and every oracle stays on.
+                        Op::InvalidateIf { .. } if unsync && !relaxed && reg.pred_injected() > pred_before => {
+                            rep.flag("panicked_predicate_judged", 1);
                         }
                         _ => relaxed = true,
                     }
